@@ -716,11 +716,100 @@ pub fn apply_dev(toks: &[Tk], d: &Dev) -> String {
     }
 }
 
+/// sizes around fixed capacities a parser may have (inline vectors of 4 / 8 / 16)
+fn scale_cases() -> Vec<Base> {
+    let mut v = Vec::new();
+    let names: Vec<String> = (0..40).map(|i| format!("k{}", (b'a' + (i % 26) as u8) as char).repeat(1 + i / 26)).collect();
+    for n in [4usize, 5, 8, 9, 16, 17, 33] {
+        for sep in SEPS {
+            // call with n arguments, function with n parameters
+            let args: Vec<TE> = (0..n).map(|i| nm(&names[i])).collect();
+            v.push(say_case(pe(call("fun", args.clone(), sep))));
+            v.extend(finish(&[TSB::Simple(s_call("fun", args, sep))]));
+            v.extend(finish(&[TSB::Function("fun".into(), names[..n].to_vec(), sep, vec![TSB::Simple(s_return(nm("ka"), 0))])]));
+        }
+        // list operand, rock list, compound list with n elements
+        let elems: Vec<TE> = (0..n).map(|i| pe(num(&(i + 1).to_string()))).collect();
+        v.extend(finish(&[TSB::Simple(s_rock(name_simple("x"), elems.clone()))]));
+        v.extend(finish(&[TSB::Simple(s_let(name_simple("x"), Some((BinOp::Plus, "plus")), elems.clone()))]));
+        {
+            let mut t = vec![kw("say")];
+            t.extend(nm("x").0);
+            t.push(kw("times"));
+            let mut es = Vec::new();
+            for (i, e) in elems.iter().enumerate() {
+                if i > 0 {
+                    t.push(comma());
+                }
+                t.extend(e.0.clone());
+                es.push(e.1.clone());
+            }
+            t.push(nl());
+            v.push((t, vec![Stmt::Output(Expr::Bin(BinOp::Times, Box::new(nm("x").1), es))]));
+        }
+        // chains of n equal operators (left-associative), n-fold unary nesting, subscript chain, build / knock
+        for (op, class) in [(BinOp::Minus, "minus"), (BinOp::Over, "over"), (BinOp::And, "and")] {
+            let mut t = vec![kw("say")];
+            t.extend(nm("x").0);
+            let mut tree = nm("x").1;
+            for i in 0..n {
+                t.push(kw(class));
+                let e = nm(&names[i]);
+                t.extend(e.0);
+                tree = Expr::Bin(op, Box::new(tree), vec![e.1]);
+            }
+            t.push(nl());
+            v.push((t, vec![Stmt::Output(tree)]));
+        }
+        let mut e = nm("x");
+        for i in 0..n {
+            e = un(if i % 2 == 0 { UnOp::Not } else { UnOp::Neg }, e);
+        }
+        v.push(say_case(e));
+        let mut p = name_simple("x");
+        for i in 0..n {
+            p = sub(p, num(&(i % 3).to_string()));
+        }
+        v.push(say_case(pe(p.clone())));
+        v.extend(finish(&[TSB::Simple(s_put(pe(num("1")), p))]));
+        v.extend(finish(&[TSB::Simple(s_build(name_simple("x"), n, n % 2 == 0)), TSB::Simple(s_knock(name_simple("x"), n, n % 2 == 1))]));
+        // nesting depth n (alternating block kinds), closed by blank lines and by end of input
+        let mut inner: Vec<TSB> = vec![TSB::Simple(s_say(pe(num("1"))))];
+        for d in 0..n.min(17) {
+            inner = vec![match d % 4 {
+                0 => TSB::If(nm("c"), inner, None),
+                1 => TSB::While(nm("c"), inner),
+                2 => TSB::If(nm("c"), vec![TSB::Simple(s_say(pe(num("2"))))], Some(inner)),
+                _ => TSB::Until(nm("c"), inner),
+            }];
+        }
+        inner.push(TSB::Simple(s_say(pe(num("9")))));
+        v.extend(finish(&inner));
+        // n statements in one block, n top-level blocks
+        let many: Vec<TSB> = (0..n).map(|i| TSB::Simple(s_say(pe(num(&i.to_string()))))).collect();
+        v.extend(finish(&[TSB::While(nm("c"), many.clone()), TSB::Simple(s_say(pe(num("9"))))]));
+        if let Some((t, st)) = finish(&many) {
+            // separated by blank lines: the top-level partition is layout
+            let mut t2 = Vec::new();
+            for x in t {
+                let is_nl = x.s == "\n";
+                t2.push(x);
+                if is_nl {
+                    t2.push(nl());
+                }
+            }
+            v.push((t2, st));
+        }
+    }
+    v
+}
+
 /// all canonical (text tokens, tree) pairs: operator chains, lists, primaries, statements in contexts
 pub fn canonical_corpus() -> Vec<(Vec<Tk>, Vec<Stmt>)> {
     let mut v = expr_cases();
     v.extend(primary_cases());
     v.extend(statement_cases());
+    v.extend(scale_cases());
     v
 }
 
@@ -739,12 +828,15 @@ fn build(tier: Tier) -> Box<dyn Check> {
     let stmts = statement_cases();
     fixed.extend(prim.clone());
     fixed.extend(stmts.clone());
+    let scale = scale_cases();
+    fixed.extend(scale.clone());
     let mut memo = std::collections::HashMap::new();
     let shapes = Space::union((1..=tier.pick(8, 9)).map(|n| shape_block(n, 3, &mut memo)).collect());
     // deviation corpus: primaries, statements, a slice of operator chains, small block shapes
     let mut dev_bases: Vec<Base> = Vec::new();
     dev_bases.extend(prim);
     dev_bases.extend(stmts.clone());
+    dev_bases.extend(scale.into_iter().step_by(3));
     let ec = expr_cases();
     dev_bases.extend(ec.iter().step_by(tier.pick(9, 2)).cloned());
     let mut memo2 = std::collections::HashMap::new();
